@@ -9,7 +9,7 @@ EXTENDS Scanner, Discrete, TLC, Json, IOUtils
 VARIABLES l, st
 
 Rec == ndJsonDeserialize(IOEnv.TRACE)
-InitState == [scores |-> <<>>, remaining |-> {}, live |-> FALSE, overflow |-> FALSE]
+InitState == [scores |-> <<>>, remaining |-> {}, live |-> FALSE, overflow |-> FALSE, thr |-> 0]
 
 \* does some window of the striped table (padded ones included) have discretised cells summing above 255?
 \* (identifies executions that run into the known non-saturating generic 8-bit kernel, see C08)
@@ -39,6 +39,9 @@ Apply(s, e) ==
   THEN IF e.ret = "ok"
        THEN [ok |-> TRUE, st |-> [ScanInit(e.pssm, e.seq, e.thr, e.K - 1) EXCEPT !.overflow = Overflow(e)], exp |-> 0]
        ELSE [ok |-> FALSE, st |-> s, exp |-> [why |-> "new_panicked", nqual |-> 0, nrem |-> 0]]
+  ELSE IF e.ev = "raise"
+  THEN [ok |-> RaiseOK(s, e.thr), st |-> IF RaiseOK(s, e.thr) THEN RaiseStep(s, e.thr) ELSE s,
+        exp |-> [why |-> "driver lowered the threshold", nrem |-> Cardinality(s.remaining), overflow |-> s.overflow, best |-> 0]]
   ELSE
     LET isnext == e.ev = "next"
         ok == IF e.ret \in {"hit", "none"} THEN (IF isnext THEN NextOK(s, e) ELSE MaxOK(s, e)) ELSE FALSE
